@@ -103,7 +103,7 @@ func ruleR01d(h *H, rule string) {
 		}
 		h.Fn(ir.FuncName(s.Fn))
 		name := "ProcessWrite call in " + ir.FuncName(ir.Outermost(s.Fn))
-		if worker != nil && ir.Outermost(s.Fn) == worker {
+		if worker != nil && regionRoot(s.Fn) == worker {
 			if app == nil {
 				continue
 			}
